@@ -114,7 +114,13 @@ func (f *SQLFormatter) formatSelect(stmt *ast.SelectStatement) error {
 
 	// SELECT keyword and columns
 	f.writeKeyword("SELECT")
-	if stmt.Distinct {
+	if len(stmt.DistinctOnColumns) > 0 {
+		f.builder.WriteString(" ")
+		f.writeKeyword("DISTINCT ON")
+		f.builder.WriteString(" (")
+		f.formatExpressionList(stmt.DistinctOnColumns, ", ")
+		f.builder.WriteString(")")
+	} else if stmt.Distinct {
 		f.builder.WriteString(" ")
 		f.writeKeyword("DISTINCT")
 	}
@@ -174,6 +180,22 @@ func (f *SQLFormatter) formatSelect(stmt *ast.SelectStatement) error {
 		}
 	}
 
+	// WINDOW clause (named window definitions)
+	if len(stmt.Windows) > 0 {
+		f.writeNewline()
+		f.writeKeyword("WINDOW")
+		f.builder.WriteString(" ")
+		for i := range stmt.Windows {
+			if i > 0 {
+				f.builder.WriteString(", ")
+			}
+			f.builder.WriteString(ast.IdentifierSQL(stmt.Windows[i].Name))
+			f.builder.WriteString(" ")
+			f.writeKeyword("AS")
+			f.builder.WriteString(" (" + stmt.Windows[i].SQL() + ")")
+		}
+	}
+
 	// ORDER BY clause
 	if len(stmt.OrderBy) > 0 {
 		f.writeNewline()
@@ -215,6 +237,16 @@ func (f *SQLFormatter) formatSelect(stmt *ast.SelectStatement) error {
 		f.writeNewline()
 		f.writeKeyword("OFFSET")
 		f.builder.WriteString(fmt.Sprintf(" %d", *stmt.Offset))
+	}
+
+	// FETCH and FOR (row locking) clauses are written as the AST serialises them
+	if stmt.Fetch != nil {
+		f.writeNewline()
+		f.builder.WriteString(stmt.Fetch.SQL())
+	}
+	if stmt.For != nil {
+		f.writeNewline()
+		f.builder.WriteString(stmt.For.SQL())
 	}
 
 	return nil
